@@ -368,9 +368,12 @@ func WorkerMain(t *testing.T) {
 		}
 		if len(st.Samples) < a.Samples {
 			cb, _ := json.Marshal(c)
-			if len(cb) < 6000 {
-				st.Samples = append(st.Samples, cb)
+			if len(cb) > 6000 {
+				// too long to print in full: keep the head of the materialised case
+				cb, _ = json.Marshal(map[string]any{"property": c.Property, "seed": c.Seed, "index": c.Index, "tier": c.Tier,
+					"truncated_bytes": len(cb), "body_head": string(c.Body[:min(len(c.Body), 3000)])})
 			}
+			st.Samples = append(st.Samples, cb)
 		}
 		switch v.Class {
 		case "violation":
